@@ -161,5 +161,12 @@ def run(facts, tier):
         raise BrokenCheck("R01-2: %d alts (floor 38)" % res.rules["R01-2"]["instances"])
     r01_3(facts, res)
     restcheck.rule(facts, res, "R02-1", floor=15)
+    # character data / attribute values after reference expansion: the expansion must not refuse a legal second mention of an
+    # entity (visited stack is a path: push and pop pair up), and declared defaults are added exactly when not written
+    import guards
+    from props import c11
+    reach, _ = facts.reachable([facts.fn("xml_info::attr_value_from_name")["id"]])
+    guards.rule(facts, res, "R01-6", [facts.fns[x] for x in reach if x in facts.fns], want=("G3",), floor=1)
+    c11.c11_7(facts, res, facts.fn("xml_info::<XmlElement as Element>::attributes"), rule="R01-7")
     res.functions_analysed = res.extra["grammar"]["productions"]
     return res
